@@ -187,14 +187,8 @@ def parse_segments(text, version=None, encoding_chars=None, validation_level=Non
                                         current_parent.repetitions[p_ref[0]][1] == 1:
                                     # a group that cannot be repeated recurs: as for segments, another instance of
                                     # the group that contains it is created
-                                    group = Group(current_parent.name, version=version,
-                                                  reference=current_parent.reference,
-                                                  validation_level=validation_level)
-                                    if current_parent.parent is None:
-                                        segments.append(group)
-                                    else:
-                                        current_parent.parent.add(group)
-                                    current_parent = group
+                                    current_parent = _new_group_instance(current_parent, segments, version,
+                                                                         validation_level)
                                 group = Group(p_ref[0], version=version, reference=p_ref[1],
                                               validation_level=validation_level)
                                 if current_parent is None:
@@ -205,14 +199,7 @@ def parse_segments(text, version=None, encoding_chars=None, validation_level=Non
                         elif current_parent is not None and segment_name in [c.name for c in current_parent.children] \
                                 and current_parent.repetitions[segment_name][1] == 1:
                             # The number of instances allowed is reached so we create another instance of the same
-                            group = Group(current_parent.name, version=version, reference=current_parent.reference,
-                                          validation_level=validation_level)
-
-                            if current_parent.parent is None:
-                                segments.append(group)
-                            else:
-                                current_parent.parent.add(group)
-                            current_parent = group
+                            current_parent = _new_group_instance(current_parent, segments, version, validation_level)
 
                         segment = parse_segment(s.strip(), version, encoding_chars, validation_level, ref)
                         if current_parent is None:
@@ -231,6 +218,22 @@ def parse_segments(text, version=None, encoding_chars=None, validation_level=Non
                     else:
                         current_parent.add(segment)
     return segments
+
+
+def _new_group_instance(group, segments, version, validation_level):
+    """
+    Create another instance of the given group next to it. When the group itself cannot be repeated inside the
+    group that contains it, another instance of that one is opened first (and so on upwards)
+    """
+    parent = group.parent
+    if parent is not None and parent.repetitions.get(group.name, (0, -1))[1] == 1:
+        parent = _new_group_instance(parent, segments, version, validation_level)
+    new_group = Group(group.name, version=version, reference=group.reference, validation_level=validation_level)
+    if parent is None:
+        segments.append(new_group)
+    else:
+        parent.add(new_group)
+    return new_group
 
 
 def parse_segment(text, version=None, encoding_chars=None, validation_level=None, reference=None):
